@@ -2,6 +2,7 @@
 from ..frontend import AnalysisBroken
 from ..ir import base
 from ..guards import guards_of
+from ..grammar import qual_member
 from .C09 import dead_blocks, first_cond_branch, depends_on
 from . import C04
 
@@ -41,7 +42,8 @@ def run(ctx, rep):
     walkers = set()
     for f in P.defined():
         for i in f.all_insts():
-            if i.op == 'sub' and 'split->size' in f.expr(i.ops[1]) and 'offset' in f.expr(i.ops[0]):
+            if i.op == 'sub' and qual_member(f, i.ops[1]) == 'snapraid_split_handle.size' and f.inst_of(i.ops[0]) is not None and f.inst_of(i.ops[0]).op == 'load':
+                # an offset-like value reduced by the size of a split (the subtraction feeds a store through a pointer or an offset local)
                 walkers.add(base(f.name))
     rep.check(walkers == {'parity_split_find'}, 'R-C17-1', 'only parity_split_find translates an offset through the split sizes', 'cmdline/parity.c', str(sorted(walkers)), function='parity_split_find', construct='single walker')
 
